@@ -183,7 +183,7 @@ def main():
 
     try:
         results = core.pmap(scansim.exec_job, [(root, i, thorough, PROP) for i in range(njobs)], jobs=workers,
-                            chunk=2, wall_per_chunk=900, budget_s=budget,
+                            chunk=2, wall_per_chunk=2400, budget_s=budget,
                             min_items=min(njobs, 250 if thorough else 64), hard_budget_s=3 * budget)
     except core.WorkerDied as e:
         print('HARNESS-FAILURE %s' % e)
